@@ -162,7 +162,13 @@ def base_scenario(rng: random.Random, prop: str, **kn) -> dict:
             m[rng.randrange(nv)] = True
         variables["mask"] = m
     cfg: dict[str, Any] = {"variables": variables}
-    cfg["objectives"] = {"weights": gen_weights(rng, no, zeros=kn.get("zero_obj_weights", True))}
+    ow = gen_weights(rng, no, zeros=kn.get("zero_obj_weights", True))
+    if no > 1 and kn.get("negative_obj_weights", True) and rng.random() < 0.12:
+        # objective weights may be negative as long as their sum is positive (an objective to maximise)
+        i = rng.randrange(no)
+        if sum(ow) - 2 * ow[i] > 0.2 and ow[i] > 1e-6:
+            ow[i] = -ow[i]
+    cfg["objectives"] = {"weights": ow}
     cfg["realizations"] = {"weights": gen_weights(rng, nr, zeros=kn.get("zero_real_weights", True))}
     rms = kn.get("rms", "rand")
     if rms == "rand":
